@@ -120,9 +120,25 @@ Theorem C07_probe_admits_cap :
   forall (sc : list Z),
     let c := cfg_of sc in
     let k := (length (script_evs sc) + callers_of sc)%nat in
-    firstn (cap c) (col6 1 (skipn (6 * k) (run_script sc))) = repeat 1 (cap c).
+    let m := Nat.min (cap c) (probe_len sc) in
+    firstn m (col6 1 (skipn (6 * k) (run_script sc))) = repeat 1 m.
 Proof. exact probe_admits_cap. Qed.
 Print Assumptions C07_probe_admits_cap.
+
+(* m is cap for an ordinary capacity (the probe has cap + 1 callers) and the whole probe
+   (PROBE_BIG callers) for a sentinel capacity = max_concurrent_calls >= tokio's MAX_PERMITS,
+   which Bulkhead::new clamps (fix 40a6972) *)
+Theorem C07_probe_min_ordinary :
+  forall (sc : list Z),
+    zn sc 0 < CAP_SENTINEL -> Nat.min (cap (cfg_of sc)) (probe_len sc) = cap (cfg_of sc).
+Proof. exact probe_min_ordinary. Qed.
+Print Assumptions C07_probe_min_ordinary.
+
+Theorem C07_probe_min_sentinel :
+  forall (sc : list Z),
+    CAP_SENTINEL <= zn sc 0 -> Nat.min (cap (cfg_of sc)) (probe_len sc) = PROBE_BIG.
+Proof. exact probe_min_sentinel. Qed.
+Print Assumptions C07_probe_min_sentinel.
 
 Theorem C07_trace_started_is_run_obs :
   forall (c : cfg) (total : nat) (evs : list ev) (s : st),
